@@ -6,13 +6,18 @@ NOTE_COMMON = ('Trusted: Lean 4.33 kernel + Mathlib v4.33 (axioms propext, Class
                'the hand-written model lean/PyGam/Model, and the correspondence harness that ties it to /repo on every run. ')
 
 CHECKS = {
+ 'C03': dict(
+   text='Theorems for every order, number of functions, pair of distinct edge knots and x over any linear ordered field: inside the knot range (both edges) rows of the modelled basis are non-negative, sum to one and have at most order+1 consecutive non-zeros; outside, rows of order >= 1 are affine in x with the boundary value as intercept and still sum to one; the basis is invariant under positive affine maps of (x, knots); periodic rows are non-negative, sum to one and repeat with the knot range; default knots = (min, max). Tied to /repo by comparing exact rational rows of the model with b_spline_basis (dense, sparse) and SplineTerm.build_columns over the full product of orders x sizes x periodic x knot pairs at knots, boundaries, cell interiors, far outside and literal-seeded points.',
+   note=NOTE_COMMON + 'IEEE rounding is not modelled (model rows are exact rationals of the float inputs; agreement to 1e-9); order-0 rows are not sampled on interior knots (float rescaling may flip a half-open cell); the slope of the continuation is tied to the derivative only through the correspondence and a finite-difference oracle, not by a theorem.',
+   technique='Lean 4 theorems (induction on the Cox-de Boor recursion, telescoping sums) + exact-rational differential correspondence with b_spline_basis',
+   ref='7/C03'),
  'C04': dict(
    text='Theorems for all n, d, c over any commutative (ordered) ring: quadratic form of derivative / periodic / l2 penalties = sum of squared (cyclic) differences; symmetric, PSD, constants and polynomials of degree < d unpenalised; lam-weighted sums. Tied to /repo by exact integer comparison of the model matrices with pygam.penalties.* and an exact quadratic-form oracle.',
    note=NOTE_COMMON + 'Exact integer arithmetic; no floating-point assumptions. penalties.periodic is a recorded known finding (known_findings.json).',
    technique='Lean 4 theorems (induction / big-operator algebra) + differential correspondence of the executable model with pygam.penalties',
    ref='7/C04'),
 }
-PENDING = ['C01','C02','C03','C05','C06','C07','C08','C09','C10','C11','C12','C13','C14','C15','C16','C17','C18','C19','C20']
+PENDING = ['C01','C02','C05','C06','C07','C08','C09','C10','C11','C12','C13','C14','C15','C16','C17','C18','C19','C20']
 
 def main():
     checks = []
